@@ -395,6 +395,111 @@ def main(inp, emit):
             'tb_depth': len(traceback.extract_tb(err.__traceback__))}
 '''
 
+PROGRAMS['one_shot'] = '''
+import collections
+
+class Seq:
+    """a user sequence (old iteration protocol)"""
+    def __init__(self, n):
+        self.n = n
+    def __len__(self):
+        return self.n
+    def __getitem__(self, i):
+        if i >= self.n:
+            raise IndexError(i)
+        return i * 10
+
+def gen(n):
+    for i in range(n):
+        yield i + 100
+
+def prepare(n):
+    table = {'a': 1, 'b': 2, 'c': n}
+    r_tuple = reversed((1, 2, 3, n))
+    r_str = reversed('abc')
+    r_seq = reversed(Seq(3))
+    it_seq = iter(Seq(4))
+    g = gen(3)
+    keys, values, items = table.keys(), table.values(), table.items()
+    z = zip('xy', (7, 8))
+    m = map(str, (n, n + 1))
+    e = enumerate('pq')
+    dq = collections.deque([n, 2, 3], maxlen=5)
+    ready = n + 1                                           #@A
+    out = {'r_tuple': list(r_tuple), 'r_str': ''.join(r_str), 'r_seq': list(r_seq), 'it_seq': list(it_seq),
+           'g': list(g), 'keys': sorted(keys), 'values': sorted(values), 'items': sorted(items), 'z': list(z),
+           'm': list(m), 'e': list(e), 'dq': list(dq), 'ready': ready}      #@B
+    return out                                              #@C
+
+def main(inp, emit):
+    out = prepare(inp)
+    emit('consumed %d' % sum(len(v) for v in out.values() if isinstance(v, (list, str))))   #@D
+    return out
+'''
+
+PROGRAMS['del_order'] = '''
+class Res:
+    def __init__(self, order, tag):
+        self.order, self.tag = order, tag
+    def __del__(self):
+        self.order.append('finalized ' + self.tag)
+
+def release_then_continue(tag):
+    order = []
+    res = Res(order, tag)
+    del res; order.append('continued ' + tag)
+    return order
+
+def rebind(tag):
+    order = []
+    res = Res(order, tag + '1')
+    res = Res(order, tag + '2'); order.append('rebound')
+    return order, res.tag
+
+def main(inp, emit):
+    a = release_then_continue('a')      #@A
+    b, t = rebind('b')                  #@B
+    emit('order %s %s' % (a, b))        #@C
+    return {'a': a, 'b': b, 't': t}
+'''
+
+# two host threads share a closure variable; the second one rebinds it while the first is inside the agent's handler
+# (the bench turns a metric processor callback into that gate: GATES is read by it)
+PROGRAMS['closure_threads'] = '''
+import threading
+
+GATES = {}
+
+class Account:
+    def __init__(self):
+        balance = 0
+        def deposit(amount):
+            nonlocal balance
+            balance += amount
+        def audit():
+            checked = True                  #@A
+            return checked and balance >= 0     #@B
+        def total():
+            return balance
+        self.deposit, self.audit, self.total = deposit, audit, total
+
+def main(inp, emit):
+    go, done = threading.Event(), threading.Event()
+    GATES['go'], GATES['done'] = go, done
+    account = Account()
+    def depositor():
+        go.wait(30)
+        account.deposit(100 + inp)
+        done.set()
+    t = threading.Thread(target=depositor)
+    t.start()
+    ok = account.audit()
+    go.set()                # at the latest now the deposit can happen
+    t.join(30)
+    emit('balance %d' % account.total())    #@C
+    return {'ok': ok, 'balance': account.total()}
+'''
+
 # known finding C01/finalisation-delayed-until-gc: the same program WITHOUT gc.collect() — its result depends on
 # objects being finalised by reference counting as soon as the function that held them returns
 PROGRAMS['finalizers_nogc'] = PROGRAMS['finalizers'].replace('        gc.collect()\n', '')
